@@ -273,3 +273,68 @@ def path_call_counts(body, loop, pred):
         return best
 
     return go(hdr)
+
+
+def stale_uses(body, lp):
+    """Loop-carried values: locals that are assigned inside loop `lp` and can be *read* in an iteration before that
+    iteration assigned them (an upward-exposed use).  Returns [(local, block, span)].  Forward may-analysis over the loop
+    body: at the header every loop-assigned local is stale; a whole-local assignment or a call destination makes it fresh;
+    any operand / borrow / discriminant read of a stale local is reported."""
+    from engine import cfg
+    blocks = body["blocks"]
+    inside = set(lp["blocks"])
+
+    def rv_reads(rv):
+        k = rv["k"]
+        for o in cfg.rv_operands(rv):
+            pl = o.get("c") or o.get("m") if isinstance(o, dict) else None
+            if pl is not None:
+                yield pl["l"]
+        if k in ("ref", "addr", "discr", "len", "copy_for_deref") and isinstance(rv.get("p"), dict):
+            yield rv["p"]["l"]
+
+    defs = set()
+    for bi in inside:
+        blk = blocks[bi]
+        for s in blk["stmts"]:
+            if s["k"] == "assign" and not s["p"]["p"]:
+                defs.add(s["p"]["l"])
+        t = blk["term"]
+        if t["k"] == "call" and isinstance(t.get("dest"), dict) and not t["dest"]["p"]:
+            defs.add(t["dest"]["l"])
+    stale_in = {bi: None for bi in inside}
+    stale_in[lp["header"]] = set(defs)
+    work = [lp["header"]]
+    found = {}
+    sc = cfg.succs(body)
+    while work:
+        bi = work.pop()
+        cur = set(stale_in[bi] or ())
+        blk = blocks[bi]
+        for s in blk["stmts"]:
+            if s["k"] != "assign":
+                continue
+            for l in rv_reads(s["rv"]):
+                if l in cur:
+                    found.setdefault((l, bi), s.get("sp") or blk.get("sp"))
+            if s["p"]["p"]:
+                if s["p"]["l"] in cur and "*" not in s["p"]["p"][:1]:
+                    pass  # partial write into a stale aggregate: stays stale
+            else:
+                cur.discard(s["p"]["l"])
+        t = blk["term"]
+        for o in cfg.term_operands(t):
+            pl = o.get("c") or o.get("m") if isinstance(o, dict) else None
+            if pl is not None and pl["l"] in cur:
+                found.setdefault((pl["l"], bi), blk.get("sp"))
+        if t["k"] == "call" and isinstance(t.get("dest"), dict) and not t["dest"]["p"]:
+            cur.discard(t["dest"]["l"])
+        for nb in sc[bi]:
+            if nb not in inside or nb == lp["header"]:
+                continue
+            old = stale_in.get(nb)
+            new = cur if old is None else (old | cur)
+            if old is None or new != old:
+                stale_in[nb] = set(new)
+                work.append(nb)
+    return [(l, bi, sp) for (l, bi), sp in sorted(found.items())]
